@@ -220,6 +220,7 @@ Qed.
 (* ------------------------------------------------------------------ the sanity rules, as propositions *)
 Definition incident (c : string) (l : link) : Prop := l_from l = c \/ l_to l = c.
 Record sane (ns : list node) (ls : list link) (es : list eqpt) : Prop := mkSane {
+  s_loops : forall l, In l ls -> l_from l <> l_to l;                        (* no link from a site to itself *)
   s_cities : NoDup (cities ns);                                             (* no duplicate city *)
   s_link_ends : forall l, In l ls -> In (l_from l) (cities ns) /\ In (l_to l) (cities ns);   (* no dangling link *)
   s_links : links_distinct ls;                                              (* no duplicate (same or reversed) link *)
@@ -228,7 +229,8 @@ Record sane (ns : list node) (ls : list link) (es : list eqpt) : Prop := mkSane 
   s_eqpt_link : forall e, In e es -> In (pair_key (e_from e) (e_to e)) (possible_links ls) /\
                                       In (pair_key (e_to e) (e_from e)) (possible_links ls);   (* Eqpt rows sit on links *)
   s_eqpt_nodup : NoDup (map (fun e => pair_key (e_from e) (e_to e)) es);    (* no duplicate Eqpt row *)
-  s_ila_one : forall n, In n ns -> n_type n = TIla -> (length (eqpts_of (n_city n) es) <= 1)%nat  (* one row per ILA *)
+  s_ila_one : forall n, In n ns -> n_type n = TIla -> (length (eqpts_of (n_city n) es) <= 1)%nat;  (* one row per ILA *)
+  s_fused_two : forall n, In n ns -> n_type n = TFused -> length (links_of (n_city n) ls) = 2%nat  (* FUSED: degree 2 *)
 }.
 
 Lemma has_links_spec : forall c ls, has_links c ls = true <-> exists l, In l ls /\ incident c l.
@@ -241,11 +243,11 @@ Lemma ntype_eqb_eq : forall a b, ntype_eqb a b = true <-> a = b.
 Proof. intros [] []; cbn; split; intro H; try reflexivity; try discriminate. Qed.
 
 Definition rules : list string :=
-  ["duplicate_city"; "link_unknown_node"; "duplicate_link"; "unreferenced_node"; "eqpt_unknown_node";
-   "eqpt_unknown_link"; "duplicate_eqpt"; "duplicate_ila"]%string.
+  ["duplicate_city"; "link_unknown_node"; "self_loop_link"; "duplicate_link"; "unreferenced_node"; "eqpt_unknown_node";
+   "eqpt_unknown_link"; "duplicate_eqpt"; "duplicate_ila"; "fused_degree"]%string.
 Definition topo_err (r : string) : string := ("NetworkTopologyError:" +s r)%string.
 
-(* Either one of the eight rules rejects the workbook, or all of them hold and the conversion proper runs. *)
+(* Either one of the ten rules rejects the workbook, or all of them hold and the conversion proper runs. *)
 Lemma checks_cases : forall ns ls es,
   (exists r, In r rules /\
      (let* _ := parse_check ns ls in sanity_check ns ls es) = Err (topo_err r)) \/
@@ -257,6 +259,8 @@ Proof.
   destruct (existsb (fun l => negb (smem (l_from l) (cities ns)) || negb (smem (l_to l) (cities ns))) ls) eqn:E2.
   { left. exists "link_unknown_node"%string. split; [cbn; tauto | reflexivity]. }
   cbn [bind]. unfold sanity_check.
+  destruct (existsb (fun l => seqb (l_from l) (l_to l)) ls) eqn:E0.
+  { left. exists "self_loop_link"%string. split; [cbn; tauto | reflexivity]. }
   destruct (dup_links ls) eqn:E3.
   { left. exists "duplicate_link"%string. split; [cbn; tauto | reflexivity]. }
   destruct (existsb (fun n => negb (has_links (n_city n) ls)) ns) eqn:E4.
@@ -269,8 +273,11 @@ Proof.
   { left. exists "duplicate_eqpt"%string. split; [cbn; tauto | reflexivity]. }
   destruct (existsb (fun n => ntype_eqb (n_type n) TIla && Nat.ltb 1 (length (eqpts_of (n_city n) es))) ns) eqn:E8.
   { left. exists "duplicate_ila"%string. split; [cbn; tauto | reflexivity]. }
+  destruct (existsb (fun n => ntype_eqb (n_type n) TFused && negb (Nat.eqb (length (links_of (n_city n) ls)) 2)) ns) eqn:E9.
+  { left. exists "fused_degree"%string. split; [cbn; tauto | reflexivity]. }
   right. split; [|split; reflexivity].
   constructor.
+  - intros l Hl. rewrite existsb_false in E0. specialize (E0 l Hl). apply seqb_neq. exact E0.
   - apply dupb_NoDup. exact E1.
   - intros l Hl. rewrite existsb_false in E2. specialize (E2 l Hl). apply orb_false_iff in E2.
     destruct E2 as [A B]. apply negb_false_iff in A, B. apply smem_In in A, B. split; assumption.
@@ -284,6 +291,8 @@ Proof.
   - apply dupb_NoDup. exact E7.
   - intros n Hn Ht. rewrite existsb_false in E8. specialize (E8 n Hn). rewrite Ht in E8. cbn [ntype_eqb andb] in E8.
     apply Nat.ltb_ge in E8. exact E8.
+  - intros n Hn Ht. rewrite existsb_false in E9. specialize (E9 n Hn). rewrite Ht in E9. cbn [ntype_eqb andb] in E9.
+    apply negb_false_iff in E9. apply Nat.eqb_eq. exact E9.
 Qed.
 
 Lemma convert_unfold : forall w,
